@@ -75,6 +75,7 @@ func Run(c *hx.Ctx) {
 				witnesses(w, &ci)
 			}
 		}
+		w.dirtyProbes()
 	}
 	n := c.N(130, 1200)
 	if replay {
@@ -112,6 +113,15 @@ func (w *world) oneBlock(idx int, report bool) bool {
 	k := 1 + c.Intn(4)
 	if c.Intn(2) == 0 {
 		k = 1
+	}
+	if c.Intn(5) == 0 { // an uncharged write-then-fail directly followed by a committing transaction
+		ptx, pds, err := w.dirtyPair(writerKinds[c.Intn(3)], committerKinds[c.Intn(len(committerKinds))])
+		if err != nil {
+			c.Fail("driver-gen", "transaction could be built", nil, err.Error(), nil)
+			return false
+		}
+		txs, descs = append(txs, ptx...), append(descs, pds...)
+		k = c.Intn(2)
 	}
 	for i := 0; i < k; i++ {
 		if !add(w.genTx()) {
@@ -226,16 +236,46 @@ func (w *world) oracle(in *blockInput, blk *types.Block, obs []*txObs, notifies 
 	}
 	gov := ongKey(nutils.GovernanceContractAddress)
 	failedWrites := map[string]int{}
+	dirtyBefore := -1 // first failed transaction of the block whose execution had written storage
 	for i, tx := range blk.Transactions {
 		o, n := obs[i], notifies[i]
 		cur := *in // each reported failure keeps its own transaction index
 		cur.Failed = i
 		in := &cur
 		d := in.Txs[i]
-		// the real execution and the observed walk must tell the same story
+		// the real execution record must be the one the transaction gets when it starts from an empty
+		// cache on the block state its successful predecessors (and the fees) left
 		if n.State != o.Walk.State || n.GasConsumed != o.Walk.GasConsumed || len(n.Notify) != len(o.Walk.Notify) {
-			c.Fail("walk-differs", "ExecuteBlock treats a transaction as handleTransaction does after a cache Reset", in,
-				fmt.Sprint(n.State, n.GasConsumed, len(n.Notify)), fmt.Sprint(o.Walk.State, o.Walk.GasConsumed, len(o.Walk.Notify)))
+			if dirtyBefore >= 0 {
+				c.Fail("leak:failed-tx-write-read-by-next", "a transaction does not see what a failed transaction before it wrote", in,
+					fmt.Sprintf("record (%d, %d, %d events) after the failed uncharged transaction %d", n.State, n.GasConsumed, len(n.Notify), dirtyBefore),
+					fmt.Sprintf("record (%d, %d, %d events) on the block state without it", o.Walk.State, o.Walk.GasConsumed, len(o.Walk.Notify)))
+			} else {
+				c.Fail("walk-differs", "ExecuteBlock treats a transaction as handleTransaction does after a cache Reset", in,
+					fmt.Sprint(n.State, n.GasConsumed, len(n.Notify)), fmt.Sprint(o.Walk.State, o.Walk.GasConsumed, len(o.Walk.Notify)))
+			}
+		}
+		if n.State == event.CONTRACT_STATE_FAIL && o.Probe != nil && len(o.Probe.Cache) > 0 {
+			if dirtyBefore < 0 {
+				dirtyBefore = i
+			}
+			if n.GasConsumed == 0 {
+				c.Count("failed-uncharged-after-writes")
+				if i+1 < len(blk.Transactions) && notifies[i+1].State == event.CONTRACT_STATE_SUCCESS {
+					c.Count("failed-uncharged-after-writes:followed-by-committer")
+				}
+			}
+		}
+		if tx.TxType != types.InvokeNeo { // Deploy / EIP155 committers: only the block-level clauses apply
+			c.Count("kind:" + d.Kind + ":" + d.Code)
+			if n.State == event.CONTRACT_STATE_FAIL {
+				for _, k := range changedKeys(o.Before, o.After) {
+					if !bytes.Equal(k, ongKey(tx.Payer)) && !bytes.Equal(k, gov) {
+						c.Fail("leak:failed-tx-write-survived", "a failed transaction changes only the payer's and the governance contract's ONG records", in, hx.Hex(k), d.Kind)
+					}
+				}
+			}
+			continue
 		}
 		pk := ongKey(tx.Payer)
 		pb, ok1 := balance(o.PayerRaw)
@@ -466,6 +506,12 @@ func coqKV(l []kvPair) string {
 
 func (w *world) emitCase(in *blockInput, blk *types.Block, obs []*txObs, notifies []*event.ExecuteNotify, real []kvPair) {
 	c := w.c
+	for _, tx := range blk.Transactions {
+		if tx.TxType != types.InvokeNeo { // the model's block loop covers invoke transactions
+			c.Count("block:not-a-model-case(deploy/eip155)")
+			return
+		}
+	}
 	// the persisted ONG records the model may read, as a store (sorted, live entries only)
 	var st []kvPair
 	for k, v := range w.stored {
